@@ -932,6 +932,14 @@ func (h *fsmHandler) connectLoop(ctx context.Context) net.Conn {
 			fsm.logger.Debug("try to connect")
 		}
 
+		if conn, handled := verifDial(ctx, addr, port); handled {
+			if conn != nil {
+				return conn
+			}
+			tick = retryInterval
+			continue
+		}
+
 		laddr, err := net.ResolveTCPAddr("tcp", net.JoinHostPort(localAddress, strconv.Itoa(localPort)))
 		if err != nil {
 			fsm.logger.Warn("failed to resolve local address")
@@ -1845,6 +1853,7 @@ func (h *fsmHandler) sendMessageloop(ctx context.Context, conn net.Conn, stateRe
 					AddPath:         fsm.familyMap.Load().(map[bgp.Family]bgp.BGPAddPathMode),
 					ExtendedMessage: fsm.extendedMessage.Load(),
 				}
+				verifYield("send", fsm)
 				for _, msg := range table.CreateUpdateMsgFromPaths(paths, options) {
 					if err := send(msg); err != nil {
 						return nil
@@ -1963,6 +1972,7 @@ func (h *fsmHandler) recvMessageloop(ctx context.Context, conn net.Conn, holdtim
 				}
 
 				if doCallback {
+					verifYield("recv", h.fsm)
 					h.callback(fmsg)
 				}
 			}
